@@ -74,18 +74,42 @@ def _unit(dt):
 
 
 def _delta_count(d, dt):
-    """SDelta/STime (whole seconds) -> z3 Int count of dt's unit."""
+    """SDelta/STime (seconds + optional fraction) -> z3 count of dt's unit (Int; Real when a fraction is present)."""
     u = _unit(dt)
+    f = getattr(d, "f", None)
     if u in _UNIT_PER_S:
         k = _UNIT_PER_S[u]
-        if z3.is_int_value(d.s):
-            return z3.IntVal(d.s.as_long() * k)
-        return d.s * k if k != 1 else d.s
+        if u == "s" or f is None:
+            if z3.is_int_value(d.s):
+                return z3.IntVal(d.s.as_long() * k)
+            return d.s * k if k != 1 else d.s
+        # finer than a second with a fraction: (s + f) * k  (f is a multiple of 1/8 s in every model we replay)
+        return z3.ToReal(d.s) * k + f * k
     if u in _S_PER_UNIT:
         k = _S_PER_UNIT[u]
         # numpy truncates toward negative infinity for datetime unit conversion
         return d.s / k
     raise Unsupported(f"time unit {u}")
+
+
+def _count_to_real(c):
+    if z3.is_int_value(c):
+        return rv(c.as_long())
+    return z3.ToReal(c) if z3.is_int(c) else c
+
+
+def _count_to_int(c):
+    return c if z3.is_int(c) else z3.ToInt(c)
+
+
+def _coarsen(x, dt):
+    """value of a time scalar after a cast to dtype dt: units of a second or coarser drop the sub-second fraction"""
+    if getattr(x, "f", None) is None:
+        return x
+    u = _unit(dt)
+    if u in ("ns", "us", "ms"):
+        return x
+    return type(x)(x.s, x.nat)
 
 
 def havoc(dt, what="uninitialised"):
@@ -120,10 +144,10 @@ def cast_scalar(x, dt, src=None):
             return SFloat.const(float("nan"))
         if isinstance(x, SDelta):
             c = _delta_count(x, src if src is not None else _np.dtype("timedelta64[ns]"))
-            return SFloat(x.nat, rv(c.as_long()) if z3.is_int_value(c) else z3.ToReal(c))
+            return SFloat(x.nat, _count_to_real(c))
         if isinstance(x, STime):
             c = _delta_count(x, src if src is not None else _np.dtype("datetime64[ns]"))
-            return SFloat(x.nat, rv(c.as_long()) if z3.is_int_value(c) else z3.ToReal(c))
+            return SFloat(x.nat, _count_to_real(c))
         r = as_sfloat(x)
         if r is NotImplemented:
             if isinstance(x, str):
@@ -132,7 +156,7 @@ def cast_scalar(x, dt, src=None):
         return r
     if k in "iu":
         if isinstance(x, (SDelta, STime)):
-            return SInt(_delta_count(x, src if src is not None else _np.dtype("timedelta64[ns]")))
+            return SInt(_count_to_int(_delta_count(x, src if src is not None else _np.dtype("timedelta64[ns]"))))
         if isinstance(x, SFloat):
             return x.__sym_int__()
         if isinstance(x, float) or type(x).__name__ in ("float64", "float32"):
@@ -155,16 +179,31 @@ def cast_scalar(x, dt, src=None):
         if x is None:
             return STime(0, TRUE)
         if isinstance(x, (SInt, SFloat, int, float)) and not isinstance(x, bool):
-            raise Unsupported("numeric -> datetime64 cast")
+            # numeric -> datetime64[unit]: the number is a count of `unit` since the epoch (floats are truncated)
+            u = _unit(dt)
+            if isinstance(x, (int, float)):
+                x = as_sfloat(x) if isinstance(x, float) else SInt(x)
+            if isinstance(x, SFloat):
+                _ex.current().side_condition(mk_or(x.nan, x.v >= 0), "negative float -> datetime64 cast (truncation toward zero)")
+                cnt, nat = z3.simplify(z3.ToInt(x.v)), x.nan
+            else:
+                cnt, nat = x.v, FALSE
+            if u == "s":
+                return STime(cnt, nat)
+            if u in _S_PER_UNIT:
+                return STime(cnt * _S_PER_UNIT[u], nat)
+            k = _UNIT_PER_S[u]
+            sec = cnt / k
+            return STime(sec, nat, z3.ToReal(cnt - sec * k) / k)
         r = as_stime(x)
         if r is NotImplemented:
             raise TypeError(f"cannot cast {type(x).__name__} to datetime64")
-        return r
+        return _coarsen(r, dt)
     if k == "m":
         r = as_sdelta(x)
         if r is NotImplemented:
             raise TypeError(f"cannot cast {type(x).__name__} to timedelta64")
-        return r
+        return _coarsen(r, dt)
     if k == "O":
         return x
     raise Unsupported(f"cast to {dt}")
@@ -189,10 +228,12 @@ def ite(c, a, b):
         return SInt(mk_if(c, a.v, b.v))
     if isinstance(a, SBool) and isinstance(b, SBool):
         return SBool(mk_if(c, a.b, b.b))
-    if isinstance(a, STime) and isinstance(b, STime):
-        return STime(mk_if(c, a.s, b.s), mk_if(c, a.nat, b.nat))
-    if isinstance(a, SDelta) and isinstance(b, SDelta):
-        return SDelta(mk_if(c, a.s, b.s), mk_if(c, a.nat, b.nat))
+    if isinstance(a, (STime, SDelta)) and type(a) is type(b):
+        if a.f is None and b.f is None:
+            return type(a)(mk_if(c, a.s, b.s), mk_if(c, a.nat, b.nat))
+        fa = rv(0) if a.f is None else a.f
+        fb = rv(0) if b.f is None else b.f
+        return type(a)(mk_if(c, a.s, b.s), mk_if(c, a.nat, b.nat), mk_if(c, fa, fb))
     raise Unsupported(f"ite of {type(a).__name__}/{type(b).__name__}")
 
 
@@ -1894,6 +1935,8 @@ def median(x, axis=None):
         vals = [v.v for v in xs]
         nanf = mk_or(*[v.nan for v in xs])
     elif k == "m":
+        if _bi.any(getattr(v, "f", None) is not None for v in xs):
+            raise Unsupported("median of sub-second time steps")
         vals = [v.s for v in xs]
         nanf = mk_or(*[v.nat for v in xs])
     elif k in "iu":
@@ -1931,7 +1974,7 @@ class _DeltaScalar(SDelta):
     __slots__ = ("dt", "half")
 
     def __init__(self, d, dt, half=FALSE):
-        SDelta.__init__(self, d.s, d.nat)
+        SDelta.__init__(self, d.s, d.nat, getattr(d, "f", None))
         self.dt = dt
         self.half = half     # value is s + 1/2 second (median of an even number of whole-second steps)
 
